@@ -524,8 +524,16 @@ class C18(Prop):
                 feats = {mode}
                 if oc == 'crash':
                     cs = out['detail'].split(':')[0]
+                    extra = set()
+                    if f and f['class'] == 'file' and \
+                            f.get('file') == 'input.txt' and \
+                            cs.endswith('@read_input.py'):
+                        # damaged *input text* and the exception is raised
+                        # inside the reader module: the long tail recorded
+                        # as F-C18-6
+                        extra.add('damaged_text_reader_traceback')
                     vio('outcome.unhandled_exception', f'{site} {cs}',
-                        out['detail'], feats | {'crash', cs})
+                        out['detail'], feats | {'crash', cs} | extra)
                     continue
                 if oc == 'hang':
                     if 'plane cap' in out['detail']:
